@@ -40,6 +40,7 @@
 #include <limits>
 #include <optional>
 #include <utility>
+#include <variant>
 
 namespace {
 
@@ -1013,8 +1014,121 @@ struct ExA { // explicitly constructible and assignable from int
         return *this;
     }
 };
-enum MCode : std::uint32_t { M_BOOL, M_CONST, M_EXPLICIT, M_TRAITS, M_NCODES };
-char const* const mcode_names[] = {"optional<bool>", "optional<int const>", "explicit / implicit value types", "constructible / convertible / assignable traits"};
+enum MCode : std::uint32_t { M_BOOL, M_CONST, M_EXPLICIT, M_TRAITS, M_CONVERT, M_CONVERT_VARIANT, M_NCODES };
+char const* const mcode_names[] = {"optional<bool>", "optional<int const>", "explicit / implicit value types", "constructible / convertible / assignable traits",
+    "converting construction / assignment optional<Dst> <- optional<Src> / Src (which constructor, source afterwards)", "converting construction / assignment variant<int,Dst> <- Src (which constructor, source afterwards)"};
+
+// (T, U) pair for the converting forms: Dst records HOW it was made from a Src (1 Dst(Src const&), 2 Dst(Src&&), 3 = Src const&,
+// 4 = Src&&), Src records that it was moved from.  [optional.ctor] / [optional.assign] / [variant.ctor] / [variant.assign] say
+// which of them runs: an lvalue source is copied from (and unchanged), an rvalue source is moved from.
+struct Src {
+    int v{0};
+    bool moved_from{false};
+    explicit Src(int x) noexcept : v(x) { }
+};
+struct Dst {
+    int v{0};
+    int how{0};
+    Dst(Src const& s) noexcept : v(s.v), how(1) { } // NOLINT
+    Dst(Src&& s) noexcept : v(s.v), how(2) { s.moved_from = true; } // NOLINT
+    auto operator=(Src const& s) noexcept -> Dst&
+    {
+        v = s.v, how = 3;
+        return *this;
+    }
+    auto operator=(Src&& s) noexcept -> Dst&
+    {
+        v = s.v, how = 4, s.moved_from = true;
+        return *this;
+    }
+};
+inline auto show(Src const& s) -> std::string { return std::to_string(s.v) + (s.moved_from ? "(moved-from)" : ""); }
+inline auto show(Dst const& d) -> std::string { return std::to_string(d.v) + "(how " + std::to_string(d.how) + ")"; }
+template <typename O>
+auto show_opt(O const& o) -> std::string
+{
+    return o.has_value() ? show(*o) : std::string("-");
+}
+// optional<Dst> <- optional<Src> / Src; a: bit 0 destination engaged, bit 1 source engaged; b: unused
+template <template <typename> class Opt, typename InPlace>
+auto convert_optional(std::uint32_t a, InPlace in_place) -> std::string
+{
+    bool de = (a & 1U) != 0, se = (a & 2U) != 0;
+    auto mk_src = [&] { return se ? Opt<Src>(in_place, 5) : Opt<Src>(); };
+    auto mk_dst = [&] { return de ? Opt<Dst>(in_place, Src(9)) : Opt<Dst>(); };
+    std::string t;
+    {
+        auto s = mk_src();
+        Opt<Dst> d(std::as_const(s));
+        t += "ctor(optional<Src> const&): d=" + show_opt(d) + " s=" + show_opt(s);
+    }
+    {
+        auto s = mk_src();
+        Opt<Dst> d(std::move(s));
+        t += " | ctor(optional<Src>&&): d=" + show_opt(d) + " s=" + show_opt(s);
+    }
+    {
+        auto s = mk_src();
+        auto d = mk_dst();
+        d      = std::as_const(s);
+        t += " | =optional<Src> const&: d=" + show_opt(d) + " s=" + show_opt(s);
+    }
+    {
+        auto s = mk_src();
+        auto d = mk_dst();
+        d      = std::move(s);
+        t += " | =optional<Src>&&: d=" + show_opt(d) + " s=" + show_opt(s);
+    }
+    {
+        Src s(6);
+        Opt<Dst> d(std::as_const(s));
+        Src r(7);
+        Opt<Dst> e(std::move(r));
+        t += " | ctor(Src const&): d=" + show_opt(d) + " s=" + show(s) + " | ctor(Src&&): d=" + show_opt(e) + " s=" + show(r);
+    }
+    {
+        Src s(6);
+        auto d = mk_dst();
+        d      = std::as_const(s);
+        Src r(7);
+        auto e = mk_dst();
+        e      = std::move(r);
+        t += " | =Src const&: d=" + show_opt(d) + " s=" + show(s) + " | =Src&&: d=" + show_opt(e) + " s=" + show(r);
+    }
+    {
+        Src s(6);
+        auto d = mk_dst();
+        d.emplace(std::as_const(s));
+        Src r(7);
+        auto e = mk_dst();
+        e.emplace(std::move(r));
+        t += " | emplace(Src const&): d=" + show_opt(d) + " s=" + show(s) + " | emplace(Src&&): d=" + show_opt(e) + " s=" + show(r);
+    }
+    return t;
+}
+// variant<int,Dst> <- Src; a: bit 0 destination holds Dst (else int)
+template <typename V, typename MkDst, typename Show>
+auto convert_variant(MkDst mk_dst, Show show_v) -> std::string
+{
+    std::string t;
+    {
+        Src s(6);
+        V d(std::as_const(s));
+        Src r(7);
+        V e(std::move(r));
+        t += "ctor(Src const&): d=" + show_v(d) + " s=" + show(s) + " | ctor(Src&&): d=" + show_v(e) + " s=" + show(r);
+    }
+    {
+        Src s(6);
+        V d = mk_dst();
+        d   = std::as_const(s);
+        Src r(7);
+        V e = mk_dst();
+        e   = std::move(r);
+        t += " | =Src const&: d=" + show_v(d) + " s=" + show(s) + " | =Src&&: d=" + show_v(e) + " s=" + show(r);
+    }
+    return t;
+}
 
 template <template <typename> class Opt, typename Null, typename InPlace>
 struct MiscLib {
@@ -1168,6 +1282,17 @@ struct Misc {
                 bool excl = vf::ctx().excluded("optional.converting_assign_engaged");
                 if (excl && (op.a & 1U) != 0) { vf::excluded_known("optional.converting_assign_engaged"); }
                 te = e.opt_explicit(op.a, op.b, !excl), ts = s.opt_explicit(op.a, op.b, !excl);
+                break;
+            }
+            case M_CONVERT: te = convert_optional<etl::optional>(op.a, etl::in_place), ts = convert_optional<std::optional>(op.a, std::in_place); break;
+            case M_CONVERT_VARIANT: {
+                bool holds_dst = (op.a & 1U) != 0;
+                using EV       = etl::variant<int, Dst>;
+                using SV       = std::variant<int, Dst>;
+                te = convert_variant<EV>([&] { return holds_dst ? EV(etl::in_place_index<1>, Src(9)) : EV(etl::in_place_index<0>, 3); },
+                    [](EV const& v) { return v.index() == 1 ? "Dst " + show(*etl::get_if<1>(&v)) : std::string("int"); });
+                ts = convert_variant<SV>([&] { return holds_dst ? SV(std::in_place_index<1>, Src(9)) : SV(std::in_place_index<0>, 3); },
+                    [](SV const& v) { return v.index() == 1 ? "Dst " + show(*std::get_if<1>(&v)) : std::string("int"); });
                 break;
             }
             default: te = E::traits(op.a), ts = S::traits(op.a); break;
